@@ -173,6 +173,14 @@ pub fn run_variant(c: &Circuit<F>, pubs: &[F], privs: &[F], v: Variant) -> Strin
 /// Poseidon2 (BabyBear, D=1, width 16) permutation whose rate inputs are private inputs and
 /// whose first two outputs are compared with public inputs.
 pub fn perm_circuit(n_priv_inputs: usize, alu_use: bool) -> (Circuit<F>, Vec<F>, Vec<F>) {
+    perm_circuit_with(n_priv_inputs, alu_use, false)
+}
+
+/// `via_connect`: the first output is `connect`ed to the expected-digest public input, so the
+/// non-primitive op *writes into a slot that already holds the caller's value* (the conflict is
+/// detected — or not — by the executor's own `ExecutionContext::set_witness`, a different code path
+/// from the runner's `set_witness` used by ALU ops).
+pub fn perm_circuit_with(n_priv_inputs: usize, alu_use: bool, via_connect: bool) -> (Circuit<F>, Vec<F>, Vec<F>) {
     let perm = default_babybear_poseidon2_16();
     let mut b = CircuitBuilder::<F>::new();
     b.enable_poseidon2_perm_base::<BabyBearD1Width16, _>(generate_poseidon2_trace::<F, BabyBearD1Width16>, perm.clone());
@@ -197,8 +205,12 @@ pub fn perm_circuit(n_priv_inputs: usize, alu_use: bool) -> (Circuit<F>, Vec<F>,
         })
         .unwrap();
     let e0 = b.public_input();
-    let d = b.sub(outs[0].unwrap(), e0);
-    b.assert_zero(d);
+    if via_connect {
+        b.connect(outs[0].unwrap(), e0);
+    } else {
+        let d = b.sub(outs[0].unwrap(), e0);
+        b.assert_zero(d);
+    }
     let mut pubs = vec![out[0]];
     if alu_use {
         // the private inputs also participate in an ALU op
@@ -234,9 +246,10 @@ pub fn main(args: &crate::Args) {
         *k += 1;
     };
     // NPO circuits first (where the profiles can differ)
-    for (n, alu_use) in [(1usize, true), (2, true), (8, true), (1, false), (3, false), (8, false)] {
-        let (c, pubs, privs) = perm_circuit(n, alu_use);
-        let n = format!("{n}{}", if alu_use { "a" } else { "" });
+    for (n, alu_use, via_connect) in [(1usize, true, false), (2, true, false), (8, true, false), (1, false, false), (3, false, false), (8, false, false),
+                                      (2, true, true), (8, false, true)] {
+        let (c, pubs, privs) = perm_circuit_with(n, alu_use, via_connect);
+        let n = format!("{n}{}{}", if alu_use { "a" } else { "" }, if via_connect { "c" } else { "" });
         for v in VARIANTS {
             if k >= skip {
                 writeln!(f, "begin {k} perm{n} {v:?}").unwrap();
